@@ -106,6 +106,16 @@ func (c *Ctx) checkSID() {
 	for _, b := range r.Blocks {
 		for _, in := range b.Instrs {
 			if ms, ok := in.(*ssa.MakeSlice); ok {
+				// only the slice the sub-authorities are read into (other buffers, e.g. for building the string, are sized freely)
+				isDest := false
+				for _, rd := range rs {
+					if mi, ok := rd.call.Common().Args[2].(*ssa.MakeInterface); ok && an.Strip(mi.X) == ssa.Value(ms) {
+						isDest = true
+					}
+				}
+				if !isDest {
+					continue
+				}
 				src := an.StripConv(ms.Len)
 				// load of the local `subAuthorityCount` that binary.Read filled
 				good := false
@@ -698,6 +708,20 @@ func byteValuesFromStrings(v ssa.Value, depth int, seen map[ssa.Value]bool) bool
 							}
 						}
 					}
+				}
+			}
+			return true
+		}
+		// a helper of the module that builds the list: `ByteValues: rawValues(values)` - every value it returns is built
+		// that way (from its own string arguments)
+		if h := an.StaticCallee(x.Common()); h != nil && an.InModule(h) && len(h.Blocks) > 0 && h.Signature.Results().Len() == 1 {
+			rets := an.Returns(h)
+			if len(rets) == 0 {
+				return false
+			}
+			for _, ret := range rets {
+				if !byteValuesFromStrings(an.ReturnResults(ret)[0], depth+1, seen) {
+					return false
 				}
 			}
 			return true
